@@ -32,8 +32,16 @@ namespace BitSerializer
 		{
 			SerializationContext context(serializationOptions);
 			typename TArchive::input_archive_type archive(input, context);
-			KeyValueProxy::SplitAndSerialize(archive, std::forward<T>(object));
-			archive.Finalize();
+			try
+			{
+				KeyValueProxy::SplitAndSerialize(archive, std::forward<T>(object));
+				archive.Finalize();
+			}
+			catch (...)
+			{
+				context.OnFailedSerialization();
+				throw;
+			}
 			context.OnFinishSerialization();
 		}
 	}
@@ -54,8 +62,16 @@ namespace BitSerializer
 		{
 			SerializationContext context(serializationOptions);
 			typename TArchive::input_archive_type archive(input, context);
-			KeyValueProxy::SplitAndSerialize(archive, std::forward<T>(object));
-			archive.Finalize();
+			try
+			{
+				KeyValueProxy::SplitAndSerialize(archive, std::forward<T>(object));
+				archive.Finalize();
+			}
+			catch (...)
+			{
+				context.OnFailedSerialization();
+				throw;
+			}
 			context.OnFinishSerialization();
 		}
 	}
@@ -76,8 +92,16 @@ namespace BitSerializer
 		{
 			SerializationContext context(serializationOptions);
 			typename TArchive::output_archive_type archive(output, context);
-			KeyValueProxy::SplitAndSerialize(archive, std::forward<T>(object));
-			archive.Finalize();
+			try
+			{
+				KeyValueProxy::SplitAndSerialize(archive, std::forward<T>(object));
+				archive.Finalize();
+			}
+			catch (...)
+			{
+				context.OnFailedSerialization();
+				throw;
+			}
 			context.OnFinishSerialization();
 		}
 	}
@@ -98,8 +122,16 @@ namespace BitSerializer
 		{
 			SerializationContext context(serializationOptions);
 			typename TArchive::output_archive_type archive(output, context);
-			KeyValueProxy::SplitAndSerialize(archive, std::forward<T>(object));
-			archive.Finalize();
+			try
+			{
+				KeyValueProxy::SplitAndSerialize(archive, std::forward<T>(object));
+				archive.Finalize();
+			}
+			catch (...)
+			{
+				context.OnFailedSerialization();
+				throw;
+			}
 			context.OnFinishSerialization();
 		}
 	}
